@@ -1,5 +1,5 @@
 (* Corr/Check_C13.v — model vs implementation for C13 (ids / overlay dir resolution / composition) *)
-From AP Require Export Corr.Common Model.Ids Model.Overlay.
+From AP Require Export Corr.Common Model.Ids Model.Overlay Model.Machine.
 Open Scope N_scope.
 
 (* ---- ids: avh fs_key / sanitize / legacy_safe.  The hash oracle is the constant function
@@ -10,6 +10,18 @@ Definition check_ids (c : str * str * (str * str * bool)) : bool :=
   && str_eqb (fs_key (fun _ => sha_hex) id) okey
   && str_eqb (sanitize id) osan
   && Bool.eqb (legacy_safe id) oleg.
+
+(* ---- machine id: avh machine_norm (library normalize_machine_id) ---- *)
+Definition check_machine_norm (c : str * str) : bool :=
+  let '(x, out) := c in str_eqb (normalize_machine_id x) out.
+
+(* ---- machine / project id through the CLI: `--machine=<o> overlay path --scope machine|project --json`
+   with the candidates the environment provides, in detect_machine_id's order; the project id is 16 hex
+   digits of the hash (given by hashlib) of the basis ---- *)
+Definition check_machine_engine (c : option str * list str * str * (str * str)) : bool :=
+  let '(o, cands, omachine, (sha_hex, opid)) := c in
+  str_eqb (engine_machine_id o cands) omachine
+  && str_eqb (project_id (fun _ => sha_hex) []) opid.
 
 (* ---- overlay dir resolution: `overlay path --json` with a given set of existing directory
    names below the scope's base ---- *)
